@@ -30,11 +30,11 @@ RULE = ("irq_return: seeded main programs (loops, PUSH/POP, LDM/STM, conditional
         "sequence, handler ISA) tuples with a completed return + distinct (op, mode, secure, bytemask, changed-field set) tuples of psr_walk + "
         "distinct (hint, encoding, outcome) and (coproc instruction, access-control outcome, mode, secure) tuples.")
 ASSUMPTIONS = [
-    "instruction fetch honours CPSR.E in this code base (a C13 matter), so code-executing scenarios keep E=0; psr_walk restores E=0 after checking SETEND/MSR",
+    "since fix 255f41a instruction fetch is little-endian whatever CPSR.E says; main programs run with E=0 or 1, handlers with SCTLR.EE=0 or 1",
     "UNPREDICTABLE PSR writes are only checked for 'no reserved mode installed' and for the fields written before the UNPREDICTABLE statement",
     "MRS of the CPSR from User mode: mode and mask bits are UNKNOWN and not compared",
     "the data-abort 'grant and retry' path belongs to C14; here handlers exist for IRQ, FIQ, SVC, UND",
-    "ERET from Hyp mode and Monitor-mode handlers are exercised only by psr_walk/C11, not by irq_return",
+    "irq_return has Monitor handlers (SCR.IRQ/FIQ) and Hyp handlers returning with ERET (HCR.IMO/FMO, Thumb handlers only: the ARM encoding of ERET is a declared-unimplemented decoder row); Hyp traps and HVC are not part of irq_return",
 ]
 
 
@@ -73,8 +73,17 @@ def build_program_case(rng, n_blocks=None, allow=None, main_modes=('usr', 'sys',
     G.set_data(devices[1], 0, code)
     G.set_data(devices[2], 0x400, bytes(rng.getrandbits(8) for _ in range(0x100)))
     e_main, ee = int(rng.random() < 0.25), int(rng.random() < 0.3)      # big-endian data in the main program / in the handlers
+    hyp_route = extra_sys is None and cps_returns and rng.random() < 0.12
+    if hyp_route:
+        # Virtualization Extensions: a Non-secure main program whose physical IRQ and/or FIQ are routed to Hyp mode (HCR.IMO/FMO); the
+        # Hyp handlers sit behind HVBAR and return with ERET
+        cfg.update(have_security_ext=True, have_virt_ext=True, memory_system_architecture='VMSA')
+        extra_sys = {'scr': 1 | 1 << 4 | 1 << 5, 'hcr': rng.choice([1 << 4, 1 << 3, 3 << 3]), 'hsctlr': 1 << 30 | ee << 25, 'hvbar': P.HYP_BASE}
     regs = P.main_state(rng, cfg, mode, thumb, te, extra_sys, e=e_main, ee=ee)
-    if extra_sys is None and mode == 'usr' and rng.random() < 0.5:
+    if hyp_route:
+        extra_sys = None
+        rets['hyp_irq'] = rets['hyp_fiq'] = 'eret'
+    if extra_sys is None and not hyp_route and mode == 'usr' and rng.random() < 0.5:
         # MPU on: the handler stacks are privileged-only, the User program keeps access to its own stack, data and code.  A return
         # sequence must therefore finish every access to the handler stack BEFORE it drops to User mode
         mpu = [(0, 0, 0)] * 12
@@ -83,7 +92,7 @@ def build_program_case(rng, n_blocks=None, allow=None, main_modes=('usr', 'sys',
         mpu[6] = (1 | 9 << 1, G.STACKS + 0x400, 1 << 8)
         regs['sys'].update(G.mpu_sys(mpu))
         regs['sys']['sctlr'] = G.sctlr_value(m=1, a=0, u=1, te=te, v=0, br=1, ee=ee)
-    if cfg['have_security_ext'] and rng.random() < 0.5:
+    if cfg['have_security_ext'] and not hyp_route and rng.random() < 0.5:
         # Security Extensions routing: IRQ and/or FIQ are taken to Monitor mode (handlers behind MVBAR), from a Secure or Non-secure main program
         scr = rng.choice([2, 4, 6]) | rng.getrandbits(1) | rng.getrandbits(2) << 4
         if scr & 1 and not scr & 4:
@@ -171,6 +180,8 @@ class ReturnChecker:
         name = type(arm.executed_opcode).__name__
         entered = [1 for t, k in self.mon.taken if t == rec['tick']]
         hk = ('mon_' + kind) if hmode0 == 0x16 and ('mon_' + kind) in self.meta['handlers'] else kind
+        if hmode0 == 0x1a and ('hyp_' + kind) in self.meta['handlers']:
+            hk = 'hyp_' + kind
         ha = self.meta['handlers'].get(hk)
         ppc = rec['post'][0][M.RNAMES.index('PC')]
         if ha:
@@ -185,7 +196,7 @@ class ReturnChecker:
             self.stack.pop()
             post_cpsr = rec['post'][1]
             pc = rec['post'][0][M.RNAMES.index('PC')]
-            ret = self.meta['returns'].get(('mon_' + kind) if hmode == 0x16 else kind, '?')
+            ret = self.meta['returns'].get(hk, self.meta['returns'].get(kind, '?'))
             site = name[:-2] if name[-2:] in ('A1', 'A2', 'T1', 'T2') else name
             if post_cpsr != saved:
                 b.violate('return.cpsr_restored', site, 'cpsr_not_restored',
@@ -381,26 +392,59 @@ def run_psr_walk(case):
             expect_cpsr = (pre_cpsr & ~0x200) | op['e'] << 9
         elif k == 'ret':
             # exception return with an arbitrary saved PSR: CPSRWriteByInstr(SPSR, '1111', TRUE) then BranchWritePC(LR - imm)
-            if cur in (0x10, 0x1f, 0x1a):
+            form = ['subs', 'subs', 'eret', 'rfe', 'ldm', 'subs', 'eret', 'rfe'][op['bits'] & 7]
+            if form == 'eret' and not (virt and thumb):
+                form = 'subs'                                    # (the ARM encoding of ERET is a declared-unimplemented decoder row)
+            if form == 'ldm' and thumb:
+                form = 'rfe'
+            if cur in (0x10, 0x1f) or (cur == 0x1a and form != 'eret'):
                 continue
             v = op['v'] & ~(1 << 24)                            # J = 0 (no Jazelle/ThumbEE)
             if not (v >> 5) & 1:
                 v &= ~0x0600FC00                                 # IT must be zero when returning to ARM state
-            setattr(r, 'spsr_' + SP[cur], v)
-            pre_sp[SP[cur]] = v
-            expect_sp[SP[cur]] = v
             lr = G.CODE + 0x100 + 4 * (op['imm12'] & 0x3F)
-            r.set(14, lr)
-            named.add(14)
-            pre_regs = M.regs_dict(arm)
-            imm = 4 if op['t1'] else 0
-            if thumb:
-                w = T.subs_pc_lr(imm)
+            imm = 0
+            if form in ('subs', 'eret'):
+                setattr(r, 'spsr_' + SP[cur], v)
+                pre_sp[SP[cur]] = v
+                expect_sp[SP[cur]] = v
+                if cur == 0x1a:
+                    r.elr_hyp = lr                               # ERET in Hyp mode returns to ELR_hyp
+                else:
+                    r.set(14, lr)
+                    named.add(14)
+                if form == 'eret':
+                    w = T.ERET if thumb else A.eret()
+                else:
+                    imm = 4 if op['t1'] else 0
+                    if thumb:
+                        w = T.subs_pc_lr(imm)
+                    else:
+                        w = A.subs_pc_lr(imm) if (imm or op['e']) else A.movs_pc_lr()
+            elif form == 'rfe':
+                # RFE: PC and CPSR come from two words in memory (read with the current data endianness)
+                rn = op['rn']
+                addr = G.DATA + 0x100 + 8 * (op['imm12'] & 0x1F)
+                bo = 'big' if (pre_cpsr >> 9) & 1 else 'little'
+                M.poke(arm, addr, lr.to_bytes(4, bo) + v.to_bytes(4, bo))
+                r.set(rn, addr)
+                named.add(rn)
+                w = T.rfe(rn, db=0, w=op['t1']) if thumb else A.rfe(rn, p=0, u=1, w=op['t1'])
             else:
-                w = A.subs_pc_lr(imm) if (imm or op['e']) else A.movs_pc_lr()
+                # LDM rn, {pc}^: the PC comes from memory, the CPSR from the SPSR
+                setattr(r, 'spsr_' + SP[cur], v)
+                pre_sp[SP[cur]] = v
+                expect_sp[SP[cur]] = v
+                rn = op['rn']
+                addr = G.DATA + 0x100 + 8 * (op['imm12'] & 0x1F)
+                M.poke(arm, addr, lr.to_bytes(4, 'big' if (pre_cpsr >> 9) & 1 else 'little'))
+                r.set(rn, addr)
+                named.add(rn)
+                w = A.ldstm(1, rn, 0x8000, p=0, u=1, w=op['t1'], s=1)
+            pre_regs = M.regs_dict(arm)
             expect_cpsr, unpred = CW.cpsr_write_by_instr(pre_cpsr, v, 0xF, True, sec, virt, scr, nmfi, rfr)
             ret_target = (lr - imm) & 0xFFFFFFFF
-            label = 'ret|%s' % ('T' if (expect_cpsr >> 5) & 1 else 'A')
+            label = 'ret|%s|%s' % (form, 'T' if (expect_cpsr >> 5) & 1 else 'A')
         elif k in ('mrs', 'mrs_spsr'):
             spsr = k == 'mrs_spsr'
             if spsr and cur in (0x10, 0x1f):
